@@ -69,11 +69,32 @@ def conclude(prop, tier, seed, results, wall, reg):
     obligations = [(r, o) for r in results for o in r["obligations"]]
     n_ob = len(obligations)
     discharged = [o for _, o in obligations if o["status"] == "discharged"]
-    refuted = [(r, o) for r, o in obligations if o["status"] == "refuted" and (not r.get("dependency") or o.get("kind") in DEP_KINDS)]
+    def off_property(r, o):
+        # a refuted postcondition clause / loop invariant / hint that carries ANOTHER property's
+        # statement (Contract.clause_props; invariants and hints are looked up by their own names)
+        if r.get("engine") != "pyvc":
+            return False
+        n, clause = o["name"], None
+        for kind, mark in (("post", "/post/"), ("loop-init", "/init/"), ("loop-preserved", "/preserved/"), ("hint", "/hint/")):
+            if o.get("kind") == kind and mark in n:
+                clause = n.split(mark, 1)[1]
+        if clause is None:
+            return False
+        try:
+            c = reg.by_name(r["name"])
+        except KeyError:
+            return False
+        return not c.clause_relevant(clause, prop)
+    off_prop = [(r, o) for r, o in obligations if o["status"] == "refuted" and not r.get("dependency") and off_property(r, o)]
+    off_names = {id(o) for _, o in off_prop}
+    refuted = [(r, o) for r, o in obligations if o["status"] == "refuted" and id(o) not in off_names and (not r.get("dependency") or o.get("kind") in DEP_KINDS)]
     # a dependency's functional postcondition that fails is another property's violation; for this
     # property it only means the callee contract its proof leans on is not established: undecided
     dep_broken = [(r, o) for r, o in obligations if o["status"] == "refuted" and r.get("dependency") and o.get("kind") not in DEP_KINDS]
-    undecided_obs = [(r, o) for r, o in obligations if o["status"] == "undecided"] + dep_broken
+    # (same treatment for off-property clauses of a unit tagged with several properties: the unit's
+    # contract is not established as a whole, so nothing is claimed as proved through it; the bounded
+    # stand-in then evaluates only the clauses of THIS property)
+    undecided_obs = [(r, o) for r, o in obligations if o["status"] == "undecided"] + dep_broken + off_prop
     undecided_units = [r for r in results if r["status"] == "undecided"]
     by_backend = {}
     solver_s = 0.0
@@ -202,6 +223,7 @@ def conclude(prop, tier, seed, results, wall, reg):
                           [r["name"] + ": " + r.get("reason", "") for r in undecided_units],
         "bounded_stand_ins": bounded,
         "known_findings_matched": known,
+        "refuted_clauses_of_other_properties": [o["name"] for _, o in off_prop],
         "samples": samples or [{"note": "no obligations"}],
         "repo": repo_tree_hash(),
     }
